@@ -163,6 +163,8 @@ pub struct Out {
     /// cache contents when the injected stop / clock expiry took effect, and at the end (observe only)
     pub cache_at_cut: Option<Vec<(u64, crate::board::transposition_table::TTEntry)>>,
     pub cache_at_end: Vec<(u64, crate::board::transposition_table::TTEntry)>,
+    /// in a forked child: (entries, fingerprint) of the cache at the cut and at the end
+    pub cache_fp: Option<((usize, u64), (usize, u64))>,
 }
 
 static LAST_PANIC: Mutex<String> = Mutex::new(String::new());
@@ -304,6 +306,9 @@ pub fn run_within(board: &Board, case: &Case, o: &Opts, allowance: std::time::Du
         out.cache_at_cut = hooks::tt_take_snapshot();
         if out.cache_at_cut.is_some() {
             out.cache_at_end = hooks::tt_contents();
+        }
+        if let Some(at_cut) = hooks::tt_fingerprint_at_cut() {
+            out.cache_fp = Some((at_cut, hooks::tt_fingerprint()));
         }
     }
     hooks::tt_observe(false);
